@@ -11,6 +11,8 @@
 (*                "arrive"        one message arrives                      *)
 (*                "close"         the device closes itself (e.g. EOF)      *)
 (*                "arrive_close"  a message arrives, then the device closes*)
+(*                "arrive2", "arrive2_close"  the same with two messages   *)
+(*                                taken in by one _receive() call          *)
 (* Kinds: "io" (BaseIOPort device double), "in" (BaseInput double),        *)
 (*        "out" (BaseOutput double), "outs" (an output whose class         *)
 (*        overrides the public send() instead of _send(), as mido's own    *)
@@ -27,8 +29,8 @@ vars == <<closed, q, script, log, nextid, hist, script0>>
 
 R(k, v) == [k |-> k, v |-> v]
 
-ScriptItems == IF Kind \in {"io", "in"} THEN {"nothing", "arrive", "close", "arrive_close"}
-               ELSE IF Kind = "ioport" THEN {"nothing", "arrive"}
+ScriptItems == IF Kind \in {"io", "in"} THEN {"nothing", "arrive", "close", "arrive_close", "arrive2", "arrive2_close"}
+               ELSE IF Kind = "ioport" THEN {"nothing", "arrive", "arrive2"}
                ELSE {}
 HasInput  == Kind \notin {"out", "outs"}
 HasOutput == Kind # "in"
@@ -54,10 +56,13 @@ Dev(s) ==
   ELSE LET it == Head(s.script)
            s1 == [s EXCEPT !.script = Tail(@)]
            arr == [s1 EXCEPT !.q = Append(@, s1.nextid), !.nextid = @ + 1]
+           arr2 == [arr EXCEPT !.q = Append(@, arr.nextid), !.nextid = @ + 1]
        IN CASE it = "nothing" -> s1
             [] it = "arrive" -> arr
             [] it = "close" -> DoClose(s1)
             [] it = "arrive_close" -> DoClose(arr)
+            [] it = "arrive2" -> arr2
+            [] it = "arrive2_close" -> DoClose(arr2)
 
 Pop(s) == [s EXCEPT !.q = Tail(@)]
 Out(s, r, sl, pl) == [s |-> s, r |-> r, sleeps |-> sl, polls |-> pl]
@@ -88,7 +93,7 @@ IterLoop(s, got, sl, pl) ==
   IF o.r.k = "msg" THEN IterLoop(o.s, Append(got, o.r.v[1]), sl + o.sleeps, pl + o.polls)
   ELSE Out(o.s, R("list", got), sl + o.sleeps, pl + o.polls)      \* ends without exception
 \* iteration ends only if the port is closed or the script closes it
-Closes(sc) == \E i \in DOMAIN sc : sc[i] \in {"close", "arrive_close"}
+Closes(sc) == \E i \in DOMAIN sc : sc[i] \in {"close", "arrive_close", "arrive2_close"}
 
 \* iter_pending (and EchoPort's __iter__): polls until None
 RECURSIVE PendLoop(_, _, _)
